@@ -337,9 +337,10 @@ def docRefuses (pn : Node) (ck : Kind) (c : Nat) (ref' : Option Nat) : Bool :=
 def isElemKind : Kind → Bool | .elem _ => true | _ => false
 
 mutual
-/-- levels of element nesting below and including the node; 0 for what is not an element -/
+/-- levels of element nesting in the subtree (the node itself counts if it is an element); a node that is not an element
+    and has no element below it has height 0 -/
 def elemHeight : Node → Nat
-  | .mk _ k _ _ ks => if isElemKind k then 1 + elemHeightL ks else 0
+  | .mk _ k _ as ks => (if isElemKind k then 1 else 0) + max (elemHeightL as) (elemHeightL ks)
 def elemHeightL : List Node → Nat
   | [] => 0
   | n :: r => max (elemHeight n) (elemHeightL r)
@@ -358,9 +359,13 @@ end
 
 def St.elemDepth (s : St) (i : Nat) : Nat := (depthInL i s.roots).getD 0
 
-/-- would the tree become deeper than the parser accepts? (only an element receiver checks) -/
+/-- would the tree become deeper than the parser accepts?  The library makes this check where an ELEMENT receives a child.
+    The model makes it for every receiver (and for `setAttributeNode`): on the states a history can reach the extra guards
+    never trip - what goes below a document adds to depth 0, and attribute nodes, which hold only text and references, have
+    height 0 - but with them the bound is an invariant of the transition relation by itself (`Lemmas/DomHeight`), with no
+    second invariant about what attribute nodes may contain.  The tie would show a guard that tripped. -/
 def tooDeep (s : St) (pn cn : Node) : Bool :=
-  isElemKind pn.kind && decide (maxDepth_element < s.elemDepth pn.id + elemHeight cn)
+  decide (maxDepth_element < s.elemDepth pn.id + elemHeight cn)
 
 /-- `insertBefore` / `appendChild`: checks in the order the library makes them, then the move -/
 def insertChild (s : St) (p c : Nat) (ref : Option Nat) : St × Res :=
@@ -375,9 +380,11 @@ def insertChild (s : St) (p c : Nat) (ref : Option Nat) : St × Res :=
     if s.isAncestorOrSelf c p then (s, .err .hierarchy) else
     if !childAllowed pn.kind cn.kind then (s, .err .hierarchy) else
     if docRefuses pn cn.kind c (adjustRef pn c ref) then (s, .err .hierarchy) else
-    if tooDeep s pn cn then (s, .err .hierarchy) else
     match s.detach c with
-    | (s1, some x) => (s1.update p (Node.mapKids (insertBeforeL x (adjustRef pn c ref))), .node c)
+    | (s1, some x) =>
+      -- the depth of the receiver does not change when the new child is taken out of its old place (it is not inside it)
+      if tooDeep s1 pn x then (s, .err .hierarchy) else
+      (s1.update p (Node.mapKids (insertBeforeL x (adjustRef pn c ref))), .node c)
     | (_, none) => (s, .err .notFound)
   | _, _ => (s, .err .notFound)
 
@@ -543,6 +550,7 @@ def step (s : St) : Op → St × Res
            let s1 : St := s.detachAll (sameLocalIds en name)
            (match s1.detach a with
             | (s2, some x) =>
+              if tooDeep s2 en x then (s, .err .hierarchy) else     -- never trips, see `tooDeep`
               (s2.update e (Node.mapAttrs (· ++ [x])),
                match oldId with | some o => .node o | none => .none_)
             | (_, none) => (s, .err .notFound))
